@@ -170,6 +170,18 @@ class ClassInfo:
         for c in self.mro():
             if name in c.methods:
                 return c.methods[name]
+            if name in c.attrs:
+                # ``name = staticmethod(f)`` / ``classmethod(f)`` / ``name = f`` with f a function of the class's module: the
+                # method is that function
+                v = c.attrs[name]
+                kind = 'method'
+                if isinstance(v, ast.Call) and isinstance(v.func, ast.Name) and v.func.id in ('staticmethod', 'classmethod') \
+                        and len(v.args) == 1 and not v.keywords:
+                    kind, v = v.func.id, v.args[0]
+                if isinstance(v, ast.Name) and v.id in c.module.functions:
+                    f = c.module.functions[v.id]
+                    return FuncInfo(f.module, c, name, f.node, kind, None)
+                return None
         return None
 
     def find_setter(self, name: str) -> Optional[FuncInfo]:
@@ -397,6 +409,8 @@ class Repo:
                 rest = rest[1:]
             else:
                 cur = c.methods.get(name)
+                if cur is None and name in c.attrs:
+                    cur = c.find_method(name)      # ``name = staticmethod(module_function)``
             for p in rest:
                 cur = cur.nested.get(p) if cur else None
         else:
